@@ -921,8 +921,35 @@ class ScheduleMonitor:
         if len(run.res.violations) > n1:
             del run.res.violations[n1:]
             return
+        if not self.opt_steps_ok_over_iteration(seg[0], seg[-1], exp):
+            return  # the optimisers did not make the documented number of steps over the WHOLE iteration either
         del run.res.violations[n0:]
         run.res.probe("logging_placed_differently_than_assumed")
+
+    def opt_steps_ok_over_iteration(self, a, b, exp):
+        """Iteration-granular version of check_opt_steps: total optimiser steps between the first and the last snapshot of
+        the iteration against the sum over its documented updates."""
+        from .trainsim import opt_step
+
+        run = self.run
+        if "C05" not in run.cl:
+            return True
+        for name in b.leaves:
+            if not name.endswith("_opt"):
+                continue
+            sa, sb = opt_step(a, name), opt_step(b, name)
+            if sa is None or sb is None:
+                continue
+            n_exp = getattr(run.adapter, "opt_steps_per_update", lambda r, n: 1)(run, name)
+            n_upd = sum(1 for _, allowed, _ in exp if name in allowed)
+            if n_exp is None:
+                continue
+            if isinstance(n_exp, tuple) and n_exp[0] == "min":
+                if sb - sa < n_exp[1] * n_upd:
+                    return False
+            elif sb - sa != n_exp * n_upd:
+                return False
+        return True
 
     def _check_markers(self, seg, markers, exp, k):
         run = self.run
